@@ -802,7 +802,8 @@ func (l *Loader) mergeResult(fetchItem *FetchItem, res *result, items []*astjson
 			l.skipValueCompletion = true
 		}
 
-		// no data
+		// no data: the fetch failed as far as its dependants are concerned
+		l.recordErroredFetchIDLocked(fetchItem)
 		return nil
 	}
 
@@ -1355,6 +1356,9 @@ func (l *Loader) renderErrorsFailedDeps(fetchItem *FetchItem, res *result) error
 }
 
 func (l *Loader) renderErrorsFailedToFetch(fetchItem *FetchItem, res *result, reason string) error {
+	// Every failed fetch, not only a transport error, makes its dependants skip:
+	// they would otherwise run on data this fetch never delivered (mergeResult holds the data lock).
+	l.recordErroredFetchIDLocked(fetchItem)
 	l.recordSubgraphError(res, res.err, NewSubgraphError(res.ds, fetchItem.ResponsePath, reason, res.statusCode))
 	errorObject, err := astjson.ParseWithArena(l.jsonArena, l.renderSubgraphBaseError(res.ds, fetchItem.ResponsePath, reason))
 	if err != nil {
@@ -1370,6 +1374,7 @@ func (l *Loader) renderErrorsFailedToFetch(fetchItem *FetchItem, res *result, re
 }
 
 func (l *Loader) renderErrorsStatusFallback(fetchItem *FetchItem, res *result, statusCode int) error {
+	l.recordErroredFetchIDLocked(fetchItem)
 	reason := strconv.Itoa(statusCode)
 	if statusText := http.StatusText(statusCode); statusText != "" {
 		reason += ": " + statusText
